@@ -33,7 +33,8 @@ RECHECK_PER_KEY = 25      # mismatches re-run and re-decided by RequireTrace per
 P1 = [[["d1"], ["?", ".lua"]], [["d2"], ["?", ".lua"]]]
 P2 = [[["d1"], ["?", ".lua"]], [["d2"], ["?"], ["init.lua"]], [["d3"], ["?"], ["x-", "?", ".lua"]]]
 P3 = [[["d1"], ["?", ".lua"]], [["d2", "sub"], ["?"], ["?", ".lua"]], [["d3"], ["m-", "?", "-", "?", ".lua"]], [["d4"], ["?", ".lua"]]]
-GEN_NAMES = {1: ["a", "b", "c"], 2: ["a", "p.q", "p.q.r", "p.q.r.s"], 3: ["string", "package", "x", "y", "table"]}
+GEN_NAMES = {1: ["a", "b", "c"], 2: ["a", "p.q", "p.q.r", "p.q.r.s"], 3: ["string", "package", "x", "y", "table"],
+             4: ["package", "a", "b"]}
 GEN_PATHS = {1: P1, 2: P2}
 
 
@@ -131,7 +132,7 @@ def case_key(rec, v):
     names = rec["names"]
     ni = names.index(op["n"]) if op["n"] in names else 0
     prev = rec["obs"][pos - 2] if pos >= 2 else None
-    if rec["nb"] > 0:
+    if rec["nb"] > 0 and len(rec["names"]) == 1:
         if field == "res" and got["res"][:2] == ["err", "notfound"]:
             return "C20:stdlib:%s:not-in-package.loaded" % op["n"]
         what = {"ld": "missing-from-package.loaded", "gl": "global-differs", "res": "require-result"}.get(field, field)
@@ -157,6 +158,27 @@ def case_key(rec, v):
             if k < len(got["ld"]) and got["ld"][k] == "nil":
                 sym = "package.loaded-entries-forgotten"
         return "C20:Open-%s%s:%s" % (op["lib"], "-again" if again else "", sym)
+    # sandbox contexts: one defect class each
+    hidden, replaced = False, False
+    for o in rec["h"][:pos - 1]:
+        if o["op"] == "glob" and o["n"] == "package":
+            hidden = o["kind"] in ("nil", "num")
+        elif o["op"] == "loaders":
+            replaced = replaced or o["how"] == "replace"
+        elif o["op"] == "open" and o.get("lib") == "package":
+            replaced = False
+    if op["op"] in ("req", "preload"):
+        first = got["res"]
+        if field == "log":
+            k = first_diff(exp["log"], got["log"])
+            if k < len(got["log"]) and got["log"][k][0] == "res":
+                first = got["log"][k][3:]
+        if hidden and first[:2] == ["err", "other"] and "non-table" in first[2]:
+            return "C20:global-package-hidden:require-and-PreloadModule-reach-package.preload/path-through-the-global-variable"
+        if replaced:
+            return "C20:package.loaders-replaced:require-keeps-using-the-original-searcher-table"
+    if op["op"] == "preload" and op.get("host"):
+        return "C20:PreloadModule:%s" % symptom(rec, field, exp, got)
     if op["op"] != "req":
         return "C20:%s:%s" % (op["op"], field)
     c = culprit(rec, pos, field, exp, got)
@@ -190,13 +212,24 @@ def dots(name):
 
 
 def nf_diff(a, b):
-    """two 'module not found' outcomes <<err, notfound, name, P, files...>>: what differs in what was tried"""
+    """two 'module not found' outcomes <<err, notfound, name, attempts...>> (attempts in message order: "P" the preload
+    field, file names, "N:<lid>" a custom searcher's refusal): what differs in what was tried"""
     if a[2] != b[2]:
         return "not-found-message:module-name"
-    if a[3] != b[3]:
-        return "not-found-message:preload-attempt-not-listed"
+
+    def kinds(toks):
+        out = []
+        for t in toks:
+            k = "preload" if t == "P" else ("custom" if t.startswith("N:") else "files")
+            if not (out and out[-1] == k == "files"):
+                out.append(k)
+        return "+".join(out) or "nothing"
+    ka, kb = kinds(a[3:]), kinds(b[3:])
+    if ka != kb:
+        return "not-found-message:searchers-tried:expected=%s,observed=%s" % (ka, kb)
     if len(a) != len(b):
-        return "not-found-message:number-of-files-listed:expected=%d,observed=%d%s" % (len(a) - 4, len(b) - 4, dots(a[2]))
+        return "not-found-message:number-of-files-listed:expected=%d,observed=%d%s" % (
+            sum(1 for t in a[3:] if t != "P" and not t.startswith("N:")), sum(1 for t in b[3:] if t != "P" and not t.startswith("N:")), dots(a[2]))
     return "not-found-message:file-names-tried-differ" + dots(a[2])
 
 
@@ -349,7 +382,8 @@ def gen_replay(tag, consts, names, verd, stats, cover, fut):
     t1 = time.time()
     path = GEN_PATHS[int(consts["PathSel"])]
     skip = consts["NameSel"] == "3"
-    recs = [mkrec(i + 1, names, 0, [expand(c, behs) for c in h], path, skip) for i, h in enumerate(leaves)]
+    nb = 1 if consts["NameSel"] == "4" else 0        # sandbox mode observes the library "package" as well
+    recs = [mkrec(i + 1, names, nb, [expand(c, behs) for c in h], path, skip) for i, h in enumerate(leaves)]
     recs = run_harness(recs, tag)
     t2 = time.time()
     checked = set()
@@ -389,7 +423,7 @@ def gen_replay(tag, consts, names, verd, stats, cover, fut):
     # every mismatch is re-run on a fresh interpreter and re-decided by TLC
     nbad = 0
     if bad:
-        again = run_harness([mkrec(b["id"], names, 0, b["h"], path, skip) for b in bad.values()], tag + "_re")
+        again = run_harness([mkrec(b["id"], names, nb, b["h"], path, skip) for b in bad.values()], tag + "_re")
         n, rejected = validate(again, tag, verd, stats)
         nbad = len(rejected)
         if nbad != len(bad):
@@ -482,19 +516,31 @@ def rand_names(rng):
     return names
 
 
-def rand_hist(rng, n, names, path, plainfam=False):
+SEARCHER_LISTS = [["C"], ["F", "P"], ["N", "P", "F"], ["P", "N"], [], ["P", "F"], ["P", "F", "C"], ["N"], ["F"]]
+
+
+def rand_hist(rng, n, names, path, plainfam=False, sandbox=False):
     """names: the 4 module names of this history; path: its initial package.path.  Files are placed where a template
     puts some name (70 % with all dots converted, else at a decoy).  family "plain" (every second history) leaves out
     assign-and-return loaders and RegisterModule (the constructs former findings were about)."""
     h = []
+    allnames = names
+    names = [x for x in names if x != "package"]     # sandbox family: "package" is observed and required, never installed
     plain = [x for x in names if "." not in x]
     allplain = len(plain) == len(names)
     cur = path
     for _ in range(n):
         k = wchoice(rng, [("req", 45), ("preload", 12), ("file", 16), ("clear", 10), ("unpreload", 4), ("rmfile", 4),
-                          ("glob", 4 if plain else 0), ("register", 0 if plainfam or not plain else 6), ("path", 2), ("reopen", 2)])
+                          ("glob", 4 if plain else 0), ("register", 0 if plainfam or not plain else 6), ("path", 2), ("reopen", 2),
+                          ("hidepkg", 6 if sandbox else 0), ("loaders", 6 if sandbox else 0)])
         nm = rng.choice(names)
-        if k == "req" or k == "clear" or k == "unpreload":
+        if k == "req":
+            h.append({"op": k, "n": rng.choice(allnames)})
+        elif k == "hidepkg":      # the script hides / replaces / restores the global variable "package"
+            h.append({"op": "glob", "n": "package", "kind": rng.choice(["nil", "num", "loaded"])})
+        elif k == "loaders":      # package.loaders edited in place or replaced by a new table
+            h.append({"op": "loaders", "n": "package", "how": rng.choice(["replace", "inplace"]), "list": rng.choice(SEARCHER_LISTS)})
+        elif k == "clear" or k == "unpreload":
             h.append({"op": k, "n": nm})
         elif k == "preload":
             host = rng.random() < 0.5
@@ -568,6 +614,8 @@ def run(tier):
             C(4 if thorough else 3, "{1,2,4}" if thorough else "{1,4}", '{"L","F1","F2","F3"}', "FALSE", 3, **DOTS))]
     mcs.append(("host mode: state without libraries, base/package/string/table opened in any order (package twice), RegisterModule, "
                 "PreloadModule, require", C(5, "{1,4}", '{"H"}', "FALSE", 10 if thorough else 9, NameSel=3)))
+    mcs.append(("sandbox mode: global package set to nil / number / restored, package.loaders edited in place or replaced "
+                "(custom / reordered / refusing / no searchers)", C(3 if thorough else 2, "{1,4}", '{"L","F1"}', "FALSE", 4, NameSel=4)))
     if thorough:
         mcs.append(("3 names, depth 5, require/clear/preload of value, fail, require-other, require-self",
                     C(3, "{1,4,5,6}", '{"L"}', "FALSE", 5)))
@@ -581,13 +629,15 @@ def run(tier):
     gens = [("q2-every-behaviour", C(2, ALLB, '{"L","H"}', "FALSE", 3)),
             ("q4-dotted-names-path-search", C(4, "{1}", '{"F1","F2","F3"}', "FALSE", 3, **DOTS)),
             ("q2-every-source-and-op", C(2, "{1,4,8}", '{"L","H","F1","F2"}', "TRUE", 3)),
-            ("q2-depth4", C(2, "{1,2,4,6,8,9}", '{"L","H"}', "FALSE", 4)),
+            ("q2-depth4", C(2, "{1,2,4,6,9}", '{"L","H"}', "FALSE", 4)),
             ("q3-cycles", C(3, "{1,4,5,6,11,14}", '{"L"}', "FALSE", 4)),
             # load -> unload (package.loaded[n] = nil) -> require for every loader kind, 1 name, depth 4
             ("q1-load-unload-reload", C(1, ALLB, '{"L","H"}', "FALSE", 4)),
             ("q1-load-unload-reload-files", C(1, "{2,3,4,10,12}", '{"L","F1"}', "FALSE", 4)),
             # SkipOpenLibs: libraries opened in any order by the history
-            ("q5-host-opens-libraries", C(5, "{1}", '{"H"}', "FALSE", 5, NameSel=3))]
+            ("q5-host-opens-libraries", C(5, "{1}", '{"H"}', "FALSE", 5, NameSel=3)),
+            # global "package" hidden / restored, package.loaders edited in place or replaced
+            ("q2-sandbox-hidden-package-replaced-loaders", C(2, "{1}", '{"L","H","F1"}', "FALSE", 3, NameSel=4))]
     if thorough:
         gens = [("t2-every-behaviour-depth4", C(2, ALLB, '{"L","H"}', "FALSE", 4)),
                 ("t4-dotted-names-path-search", C(4, "{1,4}", '{"L","F1","F2","F3"}', "FALSE", 3, **DOTS)),
@@ -596,7 +646,9 @@ def run(tier):
                 ("t3-nested-files-depth4", C(3, "{1,4,5,6,11,14}", '{"L","F1"}', "FALSE", 4)),
                 ("t2-depth5", C(2, "{1,4,5,8}", '{"L","F1"}', "FALSE", 5)),
                 ("t1-load-unload-reload", C(1, "{1,2,3,4,7,8,9,10,12,13,15}", '{"L","H","F1"}', "FALSE", 4)),
-                ("t5-host-opens-libraries", C(5, "{1}", '{"H"}', "FALSE", 6, NameSel=3))]
+                ("t5-host-opens-libraries", C(5, "{1}", '{"H"}', "FALSE", 6, NameSel=3)),
+                ("t2-sandbox-hidden-package-replaced-loaders", C(2, "{1,4}", '{"L","H","F1"}', "FALSE", 4 if False else 3, NameSel=4)),
+                ("t3-sandbox-hidden-package-replaced-loaders", C(3, "{1}", '{"L","F1"}', "FALSE", 3, NameSel=4))]
     gens = [(tag, GEN_NAMES[int(c["NameSel"])][:int(c["NNames"])], c) for tag, c in gens]
     genfut = [pool.submit(vlib.run_tlc, "RequireMC", "RequireGen", consts=consts, timeout=1500, workers=4) for _, _, consts in gens]
     mcfut = [pool.submit(vlib.run_tlc, "RequireMC", "RequireMC", consts=consts, timeout=1500, workers=4) for _, consts in mcs]
@@ -610,7 +662,7 @@ def run(tier):
             stats["states"] += r.distinct
             stats["transitions"] += r.generated
             mc.append({"what": what, "constants": consts, "generated": r.generated, "distinct": r.distinct})
-            vlib.log("[C20] MC %s: %d generated / %d distinct states, 4 invariants + 15 step laws hold (%.0fs)" % (what, r.generated, r.distinct, r.wall))
+            vlib.log("[C20] MC %s: %d generated / %d distinct states, 4 invariants + 17 step laws hold (%.0fs)" % (what, r.generated, r.distinct, r.wall))
     finally:
         pool.shutdown(wait=True, cancel_futures=True)
     # 3. TRACE: libraries opened by the host, random longer histories
@@ -631,8 +683,11 @@ def run(tier):
     recs = []
     for i in range(nrand):
         names, path = rand_names(rng), rng.choice(RPATHS)
-        recs.append(mkrec(i + 1, names, 0, rand_hist(rng, rng.choice([8, 16, 30] if not thorough else [10, 25, 50]), names, path,
-                                                     plainfam=(i % 2 == 1)), path))
+        sandbox = i % 5 == 4      # every fifth history: the library "package" is observed, its global hidden, package.loaders edited
+        if sandbox:
+            names = ["package"] + names[:3]
+        recs.append(mkrec(i + 1, names, 1 if sandbox else 0, rand_hist(rng, rng.choice([8, 16, 30] if not thorough else [10, 25, 50]), names, path,
+                                                     plainfam=(i % 2 == 1), sandbox=sandbox), path))
     hists = [r["h"] for r in recs]
     t1 = time.time()
     recs = run_harness(recs, "random")
